@@ -316,7 +316,11 @@ def motion_op_strategy(coord=None, shapes=True, depth=2):
     bypass = st.fixed_dictionaries({"op": st.sampled_from(["move_absolute", "rapid_absolute"]),
                                     "pt": pt, "form": form})
     sa = st.fixed_dictionaries({"op": st.just("set_axis"), "pt": pt, "form": form})
-    ah = st.fixed_dictionaries({"op": st.just("auto_home"), "pt": pt, "form": st.just("kw")})
+    # homing words are usually zeros ("G28 X0 Y0"): a subset of axes, each exactly 0
+    zeros = st.fixed_dictionaries({}, optional={"x": st.just(0.0), "y": st.just(0.0),
+                                                "z": st.sampled_from([0.0, 0])})
+    ah = st.fixed_dictionaries({"op": st.just("auto_home"), "pt": st.one_of(pt, zeros),
+                                "form": st.just("kw")})
     pr = st.fixed_dictionaries({"op": st.just("probe"), "mode": st.sampled_from(PROBE_MODES),
                                 "pt": pt, "form": form})
     dm = st.fixed_dictionaries({"op": st.just("set_distance_mode"),
@@ -347,7 +351,7 @@ def motion_op_strategy(coord=None, shapes=True, depth=2):
                                "fn": st.sampled_from(["to_absolute", "to_distance_mode",
                                                       "to_absolute_list"]),
                                "pts": st.lists(pt, min_size=1, max_size=3)}))
-    pairs = [(6, mv), (4, bypass), (2, sa), (1, ah), (2, pr), (3, dm), (2, noise), (1, aux)]
+    pairs = [(6, mv), (4, bypass), (2, sa), (2, ah), (2, pr), (3, dm), (2, noise), (1, aux)]
     if shapes:
         pairs.append((4, st.fixed_dictionaries(
             {"op": st.just("shape"), "d": shape_strategy(),
